@@ -37,6 +37,10 @@ type memSession struct {
 	failNext int // the next n writes fail
 	closed   int
 	ranClose int
+
+	// emptyAckDelay: time the write of an empty ACK takes (a slow link; zero = immediate). A real
+	// delay of the write path, not a synchronisation device: nothing waits for it.
+	emptyAckDelay time.Duration
 }
 
 func newMemSession(maxMsg uint32) *memSession {
@@ -71,6 +75,9 @@ func (s *memSession) WriteMessage(req *pool.Message) error {
 	}
 	cp := make([]byte, len(data))
 	copy(cp, data)
+	if s.emptyAckDelay > 0 && req.Code() == codes.Empty && req.Type() == message.Acknowledgement {
+		time.Sleep(s.emptyAckDelay)
+	}
 	s.mu.Lock()
 	defer s.mu.Unlock()
 	if s.failNext > 0 {
